@@ -28,6 +28,9 @@ func decodeAmmo(cfg *config.AmmoConfig, storage *vs.SourceStorage) ([]*gun.Scena
 	}
 
 	names, size := config.SpreadNames(cfg.Scenarios)
+	if size > config.MaxSpreadSize {
+		return nil, fmt.Errorf("scenario weights are too far apart: more than %d entries would be needed to spread them", config.MaxSpreadSize)
+	}
 	result := make([]*gun.Scenario, 0, size)
 	for _, sc := range cfg.Scenarios {
 		a, err := convertScenarioToAmmo(sc, reqRegistry)
